@@ -38,6 +38,7 @@ RULE += (' Also: any_iter over sources that are falsy although they provide item
 RULE += (' Also: await_each over a list extended by the consumer while it is iterated.')
 RULE += (' Also: await_each over a lazy input that keeps none of its awaitables (addresses are reused).')
 RULE += (' Also: a queue (deque) handed to await_each and filled further before the first request.')
+RULE += (' Also: sync() of built-in callables (next, bound list.pop / dict.get, getattr, operator.getitem) handing out stored awaitables.')
 ASSUMPTIONS = ["direct specification oracle (no stdlib twin exists for these helpers)"]
 EXHAUSTIVE = {"quick": True, "thorough": True}
 MAX_SHARDS = 8
@@ -91,6 +92,12 @@ def cases(tier, seed, shard, nshards):
             idx += 1
             if idx % nshards == shard:
                 yield {"kind": "sync_related", "pattern": pattern, "order": order}
+    for which in ("next", "list_pop", "dict_get", "getattr", "operator_getitem", "deque_popleft", "len"):
+        for stored in ("awaitable", "coroutine", "plain"):
+            for susp in (0, 1):
+                idx += 1
+                if idx % nshards == shard:
+                    yield {"kind": "sync_builtin", "which": which, "stored": stored, "susp": susp}
     for flav in ("def", "async_def", "partial", "callobj", "lambda_awaitable", "def_raises", "async_raises",
                  "callobj_plain", "notcallable", "awaitable_value", "lambda_awaitable_raises", "callobj_raises",
                  "awaitable_value_raises", "partial_raises", "class_async_call_instances", "class_plain",
@@ -1076,7 +1083,73 @@ def run_sync_related(case, stats):
     return {"violations": viols, "nontrivial": True, "sig": ("sync_related", pattern, str(order))}
 
 
+def run_sync_builtin(case, stats):
+    """sync() of a BUILT-IN callable (``next``, a bound ``list.pop`` / ``dict.get``, ``getattr``, ``operator.getitem``) that
+    merely hands out what is stored elsewhere: when that is an awaitable (a job kept in a queue / registry) the call
+    "returned an awaitable" like any other callable's - the wrapper's result is what awaiting it gives."""
+    import collections
+    import operator
+    CTX.reset()
+    which, stored, susp = case["which"], case["stored"], case["susp"]
+    result = Item(1, "res")
+
+    class Job:
+        def __await__(self):
+            if susp:
+                yield from Suspend("job", 1).__await__()
+            return result
+
+    async def job():
+        if susp:
+            await Suspend("job", 1)
+        return result
+
+    thing = Job() if stored == "awaitable" else job() if stored == "coroutine" else result
+
+    class Registry:
+        pass
+
+    reg = Registry()
+    reg.entry = thing
+    if which == "next":
+        fn, args = next, (iter([thing]),)
+    elif which == "list_pop":
+        fn, args = [thing].pop, ()
+    elif which == "dict_get":
+        fn, args = {"k": thing}.get, ("k",)
+    elif which == "getattr":
+        fn, args = getattr, (reg, "entry")
+    elif which == "operator_getitem":
+        fn, args = operator.getitem, ([thing], 0)
+    elif which == "deque_popleft":
+        fn, args = collections.deque([thing]).popleft, ()
+    else:
+        fn, args = len, ([thing],)
+    viols = []
+    try:
+        res = ("ok", drive(_await(A.sync(fn)(*args))))
+    except BaseException as exc:  # noqa: BLE001
+        res = ("raise", type(exc).__name__, str(exc)[:80])
+    want = ("ok", 1) if which == "len" else ("ok", result)
+    if not (res[0] == "ok" and res[1] is want[1] or res == want):
+        viols.append({"key": "sync/result",
+                      "msg": f"sync({which}) handing out a stored {stored} value: awaiting the call gave {res!r}, expected {want!r}"})
+    if inspect_is_coroutine(thing):
+        thing.close()
+    if CTX.foreign:
+        viols.append({"key": "sync/foreign-suspension", "msg": CTX.foreign[0]})
+    stats["sync_builtin_callable_runs"] += 1
+    return {"violations": viols, "nontrivial": True, "sig": ("sync_builtin", which, stored, susp)}
+
+
+def inspect_is_coroutine(obj):
+    import inspect
+    return inspect.iscoroutine(obj)
+
+
 def run_case(case, stats: Counter):
+    if case["kind"] == "sync_builtin":
+        return run_sync_builtin(case, stats)
     if case["kind"] == "sync_related":
         return run_sync_related(case, stats)
     return {"any_iter": run_any_iter, "await_each": run_await_each, "apply": run_apply, "sync": run_sync,
